@@ -959,7 +959,9 @@ def gen_commit_programs(r, n, big=0.05):
     return progs
 
 
-def mon_commit(rr):
+def mon_commit(rr, readable=True):
+    """`readable`: also demand that an accepted keyed commit reads back (C08, C16; C14 is about writers that
+    do NOT commit and leaves that to them)."""
     out = []
     t = rr.prog.tags
     ci = t["commit"]
@@ -1009,7 +1011,7 @@ def mon_commit(rr):
             want_sri = t["declared"] if t["declared"] else L.sri_of(t["algo"], t["data"])
             if m in (None, "ERR") or L.sri_parse(m["sri"]) != L.sri_parse(want_sri):
                 out.append(Failure("commit_not_mapped", t["after"], "successful keyed commit is not what the lookup returns", sig=sig))
-            if t["final_read"] < len(rr.impl):
+            if readable and t["final_read"] < len(rr.impl):
                 fr = toks(rr.impl[t["final_read"]])
                 if fr[0] != "ok" or unhx(fr[1]) != t["data"]:
                     out.append(Failure("committed_unreadable", t["final_read"],
